@@ -617,6 +617,7 @@ fn run_one(cx: &mut Ctx, c: &Value) {
     }
     if c.get("cell").and_then(|x| x.as_str()) == Some("bitvector/xhistory") { x::x_history_replay(cx, c); return; }
     if c.get("cell").and_then(|x| x.as_str()) == Some("big") { x::big_replay(cx, c); return; }
+    if c.get("cell").and_then(|x| x.as_str()) == Some("few_described") { x::few_described_replay(cx, c); return; }
     let mut bits = vec![];
     for rn in c["runs"].as_array().unwrap() { for _ in 0..rn[1].as_u64().unwrap() { bits.push(rn[0].as_u64().unwrap() == 1); } }
     let mode = c["mode"].as_u64().unwrap_or(0) as u32;
@@ -646,7 +647,7 @@ pub fn run(args: &Args) {
             if let Some(n) = v["stop_at"].as_u64() { cx.stop_at = n as usize; }
             if let Some(a) = v["aborted"].as_array() {
                 for c in a {
-                    let cell = match c.get("cell").and_then(|x| x.as_str()) { Some("bitvector/xhistory") => "bitvector/xhistory", Some("big") => "process", Some(_) => "bitvector", None => "process" };
+                    let cell = match c.get("cell").and_then(|x| x.as_str()) { Some("bitvector/xhistory") => "bitvector/xhistory", Some("big") => "process", Some("few_described") => "few/described", Some(_) => "bitvector", None => "process" };
                     cx.sum.eval(cell, &format!("abort {}", c), true);
                     cx.sum.fail(cell, None, c.clone(), "the process aborted (bounds failure / abort inside the library) while running this case");
                 }
@@ -679,7 +680,7 @@ pub fn run(args: &Args) {
         }
         // the worker never got through: report what was seen
         for c in aborted {
-            let cell = match c.get("cell").and_then(|x| x.as_str()) { Some("bitvector/xhistory") => "bitvector/xhistory", Some("big") => "process", Some(_) => "bitvector", None => "process" };
+            let cell = match c.get("cell").and_then(|x| x.as_str()) { Some("bitvector/xhistory") => "bitvector/xhistory", Some("big") => "process", Some("few_described") => "few/described", Some(_) => "bitvector", None => "process" };
             cx.sum.eval(cell, &format!("abort {}", c), true);
             cx.sum.fail(cell, None, c, "the process aborted (bounds failure / abort inside the library) while running this case");
         }
@@ -724,6 +725,7 @@ pub fn run(args: &Args) {
     }
     // vectors given by (kind, n, seed): internal thresholds (32/33 blocks, 10^4, 2^14, 2^16, 2^20, 10^6)
     x::big_family(&mut cx, args.thorough);
+    x::few_described_family(&mut cx, args.thorough);
     lap!("kind_n_seed");
     let ngen = if args.thorough { 6000 } else { 420 };
     for i in 0..ngen {
